@@ -16,9 +16,11 @@ const dnfCap = 32
 
 // ResDesc describes one result of a function on one return case.
 type ResDesc struct {
-	Kind byte // 'c' bool const, 'n' nil, 'N' non-nil, '?' unknown
-	B    bool
-	T    *Term // param-rooted term equal to the result, if any
+	Kind  byte // 'c' bool const, 'n' nil, 'N' non-nil, 'k' int const, '?' unknown
+	B     bool
+	T     *Term // param-rooted term equal to the result, if any
+	Valid byte  // reflect.Value results: 't' valid, 'f' invalid, 0 unknown
+	Canif byte  // reflect.Value results: 't' readable
 }
 
 type RetCase struct {
@@ -50,6 +52,8 @@ type FnAnalysis struct {
 	rets    []retState
 	unstable bool
 	collapsed map[*ssa.BasicBlock]bool
+	refineDepth int
+	realias     int
 }
 
 type retState struct {
@@ -71,6 +75,7 @@ type Engine struct {
 	globalNonNil map[string]bool
 	slot0Axiom   bool
 	forall       map[*ssa.Function]forallSpec // variadic universal predicates (shape-checked by R-REFL)
+	det          map[*ssa.Function]bool
 }
 
 type forallSpec struct {
@@ -81,7 +86,7 @@ type forallSpec struct {
 func newEngine(p *Program, eff *Effects) *Engine {
 	e := &Engine{p: p, eff: eff, tt: newTermTable(), fa: map[string]*FnAnalysis{}, sums: map[*ssa.Function]*Summary{},
 		busy: map[*ssa.Function]bool{}, instrID: map[ssa.Instruction]int{}, epochBlock: map[int]*ssa.BasicBlock{},
-		fieldNonNil: map[string]bool{}, globalNonNil: map[string]bool{}, slot0Axiom: true}
+		fieldNonNil: map[string]bool{}, globalNonNil: map[string]bool{}, slot0Axiom: true, det: map[*ssa.Function]bool{}}
 	id := 1
 	for _, fn := range p.Funcs {
 		for _, b := range fn.Blocks {
@@ -93,6 +98,59 @@ func newEngine(p *Program, eff *Effects) *Engine {
 		}
 	}
 	return e
+}
+
+// deterministic: a pure in-package function whose results depend only on
+// its arguments and the heap (no random source, no clock, no map iteration
+// order, no user code).
+func (e *Engine) deterministic(fn *ssa.Function) bool {
+	if v, ok := e.det[fn]; ok {
+		return v
+	}
+	e.det[fn] = false // recursion: pessimistic
+	ok := e.eff.pure(fn)
+	if ok {
+		for _, b := range fn.Blocks {
+			for _, in := range b.Instrs {
+				switch x := in.(type) {
+				case *ssa.Call:
+					if x.Call.IsInvoke() {
+						n := x.Call.Method.FullName()
+						if !strings.HasPrefix(n, "(reflect.Type).") {
+							ok = false
+						}
+						continue
+					}
+					if _, isB := x.Call.Value.(*ssa.Builtin); isB {
+						continue
+					}
+					cal := e.p.callee(&x.Call)
+					if cal == nil {
+						ok = false
+						continue
+					}
+					if e.p.inPkg(cal) {
+						if cal != fn && !e.deterministic(cal) {
+							ok = false
+						}
+						continue
+					}
+					n := cal.String()
+					if strings.HasPrefix(n, "math/rand.") || n == "time.Now" || !(isPureExternal(n) || aliasExternal[n]) {
+						ok = false
+					}
+				case *ssa.Range:
+					if _, isMap := x.X.Type().Underlying().(*types.Map); isMap {
+						ok = false
+					}
+				case *ssa.Go, *ssa.Defer:
+					ok = false
+				}
+			}
+		}
+	}
+	e.det[fn] = ok
+	return ok
 }
 
 // ---------------------------------------------------------------- terms
@@ -261,6 +319,25 @@ func (fa *FnAnalysis) term(st *State, v ssa.Value) *Term {
 	case *ssa.Call:
 		if b, ok := x.Call.Value.(*ssa.Builtin); ok && b.Name() == "len" && len(x.Call.Args) == 1 {
 			return e.tt.mk(Term{K: "LEN", A: fa.term(st, x.Call.Args[0])})
+		}
+		if st != nil {
+			if ep, ok := st.cep[x]; ok {
+				if cal := e.p.callee(&x.Call); cal != nil && e.p.inPkg(cal) && e.deterministic(cal) {
+					var list *Term
+					for i := len(x.Call.Args) - 1; i >= 0; i-- {
+						list = e.tt.mk(Term{K: "AL", A: fa.term(st, x.Call.Args[i]), B: list})
+					}
+					return e.tt.mk(Term{K: "APP", S: relName(cal), A: list, N: ep})
+				}
+			}
+		}
+		if cal := e.p.callee(&x.Call); cal != nil && !e.p.inPkg(cal) && len(x.Call.Args) == 1 {
+			switch cal.String() {
+			case "reflect.TypeOf":
+				return e.tt.mk(Term{K: "TYPEOF", A: fa.term(st, x.Call.Args[0])})
+			case "reflect.ValueOf":
+				return e.tt.mk(Term{K: "VALOF", A: fa.term(st, x.Call.Args[0])})
+			}
 		}
 		if cal := x.Call.StaticCallee(); cal != nil && len(x.Call.Args) == 1 {
 			switch cal.String() {
@@ -621,7 +698,7 @@ func (fa *FnAnalysis) edgeTransfer(st *State, p, b *ssa.BasicBlock, predIdx int)
 			}
 		}
 		vt := fa.e.tt.mk(Term{K: "V", V: ic.phi})
-		if isHeader {
+		if isHeader && back {
 			delete(ns.terms, ic.phi)
 			if loopDefined {
 				delete(ns.bind, ic.phi)
@@ -936,14 +1013,9 @@ func (fa *FnAnalysis) killHeap(st *State, locs []string) {
 
 // callResultTerm is the term of result k of a call.
 func (fa *FnAnalysis) callResultTerm(st *State, c *ssa.Call, k int) *Term {
-	vt := fa.e.tt.mk(Term{K: "V", V: c})
+	base := fa.term(st, c)
 	if c.Call.Signature().Results().Len() == 1 {
-		if st != nil {
-			if t, ok := st.terms[c]; ok && t != nil {
-				return t
-			}
-		}
-		return vt
+		return base
 	}
 	if st != nil {
 		if refs := c.Referrers(); refs != nil {
@@ -956,7 +1028,7 @@ func (fa *FnAnalysis) callResultTerm(st *State, c *ssa.Call, k int) *Term {
 			}
 		}
 	}
-	return fa.e.tt.mk(Term{K: "X", A: vt, N: k})
+	return fa.e.tt.mk(Term{K: "X", A: base, N: k})
 }
 
 func (fa *FnAnalysis) argTerms(st *State, c *ssa.CallCommon) []*Term {
@@ -965,6 +1037,49 @@ func (fa *FnAnalysis) argTerms(st *State, c *ssa.CallCommon) []*Term {
 		out = append(out, fa.term(st, a))
 	}
 	return out
+}
+
+// constKind: the constant reflect.Kind of a Value term, when the state
+// determines it: an invalid Value has kind 0; a stored Kind()==k test; or
+// equality of its kind with the kind of a value whose kind is determined.
+func (fa *FnAnalysis) constKind(st *State, vt *Term, depth int) (int64, bool) {
+	if v, ok := st.get(aVALID, vt); ok && !v {
+		return 0, true
+	}
+	if vt.K == "VALOF" {
+		if vt.A.K == "C" && vt.A.S == "nil" {
+			return 0, true
+		}
+		if v, ok := st.get(aNN, vt.A); ok && !v {
+			return 0, true
+		}
+	}
+	kt := fa.e.tt.mk(Term{K: "KIND", A: vt})
+	for _, f := range st.factList() {
+		if f.Kind != aTR || !f.Val || f.T.K != "B" || f.T.S != "==" {
+			continue
+		}
+		var o *Term
+		if f.T.A == kt {
+			o = f.T.B
+		} else if f.T.B == kt {
+			o = f.T.A
+		}
+		if o == nil {
+			continue
+		}
+		if o.K == "C" && o.Const != nil {
+			if n, ok := constInt64(o.Const); ok {
+				return n, true
+			}
+		}
+		if o.K == "KIND" && depth < 2 {
+			if n, ok := fa.constKind(st, o.A, depth+1); ok {
+				return n, true
+			}
+		}
+	}
+	return 0, false
 }
 
 // holdsFact evaluates a fact in st including intrinsic knowledge.
@@ -982,12 +1097,96 @@ func (fa *FnAnalysis) knownTerm(st *State, kind string, t *Term) (bool, bool) {
 			}
 		}
 	}
+	if kind == aNN && t.K == "TYPEOF" {
+		if v, ok := fa.knownTerm(st, aNN, t.A); ok {
+			return v, true
+		}
+		// the type of x is non-nil exactly when ValueOf(x) is valid (kind-based knowledge included)
+		vo := fa.e.tt.mk(Term{K: "VALOF", A: t.A})
+		if v, ok := st.get(aVALID, vo); ok {
+			return v, true
+		}
+		if k, ok := fa.constKind(st, vo, 0); ok {
+			return k != 0, true
+		}
+	}
+	if kind == aVALID && t.K == "VALOF" {
+		if v, ok := fa.knownTerm(st, aNN, t.A); ok {
+			return v, true
+		}
+		if v, ok := st.get(aNN, fa.e.tt.mk(Term{K: "TYPEOF", A: t.A})); ok {
+			return v, true
+		}
+	}
+	if kind == aNN && t.K != "TYPEOF" {
+		// x itself is non-nil when ValueOf(x) is known valid by its kind
+		vo := fa.e.tt.mk(Term{K: "VALOF", A: t})
+		if _, exists := fa.e.tt.m[vo.key]; exists {
+			if k, ok := fa.constKind(st, vo, 0); ok && k != 0 {
+				return true, true
+			}
+		}
+	}
+	if kind == aCANIF && t.K == "VALOF" {
+		return true, true
+	}
+	if strings.HasPrefix(kind, "kindin:") {
+		want := map[string]bool{}
+		for _, k := range strings.Split(strings.TrimPrefix(kind, "kindin:"), ",") {
+			want[k] = true
+		}
+		var check func(t *Term, depth int) bool
+		check = func(t *Term, depth int) bool {
+			kt := fa.e.tt.mk(Term{K: "KIND", A: t})
+			for _, f := range st.factList() {
+				if f.Kind == aTR && f.Val && f.T.K == "B" && f.T.S == "==" {
+					var o *Term
+					if f.T.A == kt {
+						o = f.T.B
+					} else if f.T.B == kt {
+						o = f.T.A
+					}
+					if o == nil {
+						continue
+					}
+					if o.K == "C" && want[o.S] {
+						return true
+					}
+					if o.K == "KIND" && depth < 2 && check(o.A, depth+1) {
+						return true
+					}
+				}
+				if f.T == t && f.Val && strings.HasPrefix(f.Kind, "kindin:") {
+					sub := true
+					for _, k := range strings.Split(strings.TrimPrefix(f.Kind, "kindin:"), ",") {
+						if !want[k] {
+							sub = false
+						}
+					}
+					if sub {
+						return true
+					}
+				}
+			}
+			return false
+		}
+		if check(t, 0) {
+			return true, true
+		}
+		return false, false
+	}
 	if kind == aVALID {
 		if v, ok := st.get(aVALID, t); ok {
 			return v, true
 		}
+		// a kind membership that excludes Invalid implies validity
+		for _, f := range st.factList() {
+			if f.T == t && f.Val && strings.HasPrefix(f.Kind, "kindin:") && !strings.Contains(","+strings.TrimPrefix(f.Kind, "kindin:")+",", ",0,") {
+				return true, true
+			}
+		}
 		kt := fa.e.tt.mk(Term{K: "KIND", A: t})
-		for _, f := range st.facts {
+		for _, f := range st.factList() {
 			if f.Kind == aTR && f.Val && f.T.K == "B" && f.T.S == "==" {
 				var c *Term
 				if f.T.A == kt {
@@ -1001,6 +1200,23 @@ func (fa *FnAnalysis) knownTerm(st *State, kind string, t *Term) (bool, bool) {
 					}
 				}
 			}
+			if f.Kind == aTR && !f.Val && f.T.K == "B" && f.T.S == "==" {
+				// Kind() != Invalid
+				var c *Term
+				if f.T.A == kt {
+					c = f.T.B
+				} else if f.T.B == kt {
+					c = f.T.A
+				}
+				if c != nil && c.K == "C" && c.S == "0" {
+					return true, true
+				}
+			}
+		}
+		// the kind equals the kind of another value that is known valid by its kind
+		all := "kindin:1,2,3,4,5,6,7,8,9,10,11,12,13,14,15,16,17,18,19,20,21,22,23,24,25,26"
+		if v, ok := fa.knownTerm(st, all, t); ok && v {
+			return true, true
 		}
 		return false, false
 	}
@@ -1017,6 +1233,28 @@ func (fa *FnAnalysis) knownTerm(st *State, kind string, t *Term) (bool, bool) {
 		return !v, ok
 	}
 	if kind == aTR && t.K == "B" && t.S == "==" {
+		// comparisons of kinds: decided by the constant kind of each side when known
+		for _, pr := range [][2]*Term{{t.A, t.B}, {t.B, t.A}} {
+			if pr[0].K == "C" && pr[0].Const != nil && pr[1].K == "KIND" {
+				if n, ok := constInt64(pr[0].Const); ok {
+					if k, known := fa.constKind(st, pr[1].A, 0); known {
+						return k == n, true
+					}
+					if n == 0 {
+						if v, known := fa.knownTerm(st, aVALID, pr[1].A); known && v {
+							return false, true
+						}
+					}
+				}
+			}
+		}
+		if t.A.K == "KIND" && t.B.K == "KIND" {
+			ka, oka := fa.constKind(st, t.A.A, 0)
+			kb, okb := fa.constKind(st, t.B.A, 0)
+			if oka && okb {
+				return ka == kb, true
+			}
+		}
 		// x == nil
 		if t.A.K == "C" && t.A.S == "nil" {
 			v, ok := fa.knownTerm(st, aNN, t.B)
@@ -1059,6 +1297,31 @@ func (fa *FnAnalysis) addTermFact(st *State, kind string, t *Term, val bool) {
 			st.dead = true
 		}
 		return
+	}
+	if (kind == aNN && t.K == "TYPEOF") || (kind == aVALID && t.K == "VALOF") {
+		fa.addTermFact(st, aNN, t.A, val)
+		return
+	}
+	if kind == aTR && val && t.K == "B" && t.S == "==" {
+		// two different constants cannot both equal the same term
+		for _, pr := range [][2]*Term{{t.A, t.B}, {t.B, t.A}} {
+			if pr[0].K == "C" && pr[0].Const != nil {
+				for _, f := range st.factList() {
+					if f.Kind == aTR && f.Val && f.T.K == "B" && f.T.S == "==" {
+						var oc *Term
+						if f.T.A == pr[1] {
+							oc = f.T.B
+						} else if f.T.B == pr[1] {
+							oc = f.T.A
+						}
+						if oc != nil && oc.K == "C" && oc.Const != nil && oc.S != pr[0].S {
+							st.dead = true
+							return
+						}
+					}
+				}
+			}
+		}
 	}
 	st.add(kind, t, val)
 }
@@ -1118,7 +1381,7 @@ func (fa *FnAnalysis) buildSummary() *Summary {
 		for _, s := range states {
 			rc := RetCase{}
 			pure := fa.e.eff.pure(fa.fn)
-			for _, f := range s.facts {
+			for _, f := range s.factList() {
 				if f.T.summaryRooted(pure) && f.T.mentionsParam() {
 					rc.Facts = append(rc.Facts, f)
 				}
@@ -1159,8 +1422,9 @@ func (fa *FnAnalysis) buildSummary() *Summary {
 						}
 					}
 				}
-				if d.T == nil {
+				if d.T == nil || (d.T.K != "P" && d.T.K != "C") {
 					// expressed through another result, e.g. the third result of derefPtr is Kind() of the second
+					// (preferred over a parameter form so that all return cases agree syntactically)
 					var others []*Term
 					for j := 0; j < nres && j < len(rs.ret.Results); j++ {
 						if j == k {
@@ -1189,6 +1453,18 @@ func (fa *FnAnalysis) buildSummary() *Summary {
 						}
 					}
 				}
+				if typeStr(rv.Type()) == "reflect.Value" {
+					if v, ok := fa.knownTerm(s, aVALID, t); ok {
+						if v {
+							d.Valid = 't'
+						} else {
+							d.Valid = 'f'
+						}
+					}
+					if v, ok := fa.knownTerm(s, aCANIF, t); ok && v {
+						d.Canif = 't'
+					}
+				}
 				rc.Res = append(rc.Res, d)
 			}
 			var kb strings.Builder
@@ -1196,7 +1472,7 @@ func (fa *FnAnalysis) buildSummary() *Summary {
 				fmt.Fprintf(&kb, "%s=%v;", factKey(f.Kind, f.T), f.Val)
 			}
 			for _, d := range rc.Res {
-				fmt.Fprintf(&kb, "r:%c%v", d.Kind, d.B)
+				fmt.Fprintf(&kb, "r:%c%v%c%c", d.Kind, d.B, d.Valid+'0', d.Canif+'0')
 				if d.T != nil {
 					kb.WriteString(d.T.key)
 				}
@@ -1271,20 +1547,20 @@ func (fa *FnAnalysis) refineCall(st *State, c *ssa.Call) {
 			}
 			switch d.Kind {
 			case 'c':
-				if v, known := st.get(aTR, rt); known && v != d.B {
+				if v, known := fa.knownTerm(st, aTR, rt); known && v != d.B {
 					ok = false
 				}
 			case 'n':
-				if v, known := st.get(aNN, rt); known && v {
+				if v, known := fa.knownTerm(st, aNN, rt); known && v {
 					ok = false
 				}
 			case 'N':
-				if v, known := st.get(aNN, rt); known && !v {
+				if v, known := fa.knownTerm(st, aNN, rt); known && !v {
 					ok = false
 				}
 			case 'k':
 				// an integer constant result: every stored comparison on the result must agree
-				for _, f := range st.facts {
+				for _, f := range st.factList() {
 					if f.Kind != aTR || f.T.K != "B" {
 						continue
 					}
@@ -1303,11 +1579,18 @@ func (fa *FnAnalysis) refineCall(st *State, c *ssa.Call) {
 						ok = false
 					}
 				}
+			}
+			if d.Valid != 0 {
+				if v, known := fa.knownTerm(st, aVALID, rt); known && v != (d.Valid == 't') {
+					ok = false
+				}
+			}
+			switch d.Kind {
 			case '?':
 				// a result equal to a param-rooted term inherits its nil-ness
 				if d.T != nil {
 					if v, known := fa.knownTerm(st, aNN, d.T); known {
-						if w, k2 := st.get(aNN, rt); k2 && w != v {
+						if w, k2 := fa.knownTerm(st, aNN, rt); k2 && w != v {
 							ok = false
 						}
 					}
@@ -1349,6 +1632,31 @@ func (fa *FnAnalysis) refineCall(st *State, c *ssa.Call) {
 		f := byKey[k]
 		fa.addTermFact(st, f.Kind, f.T, f.Val)
 	}
+	{
+		var cf [][]Fact
+		var cr [][]ResDesc
+		for _, in := range feas {
+			cf = append(cf, in.facts)
+			cr = append(cr, in.res)
+		}
+		rts := make([]*Term, nres)
+		for k := 0; k < nres; k++ {
+			rts[k] = fa.callResultTerm(st, c, k)
+		}
+		fa.perCaseResults(st, c, c.Call.Signature().Results(), rts, cf, cr)
+		if st.dead {
+			return
+		}
+	}
+	newAlias := false
+	defer func() {
+		// results expressed through other results (KIND(R(1))) must see the aliases just made
+		if newAlias && !st.dead && fa.realias < 2 {
+			fa.realias++
+			fa.refineCall(st, c)
+			fa.realias--
+		}
+	}()
 	for k := 0; k < nres; k++ {
 		rt := fa.callResultTerm(st, c, k)
 		agreeKind := byte(0)
@@ -1388,10 +1696,11 @@ func (fa *FnAnalysis) refineCall(st *State, c *ssa.Call) {
 				if refs := c.Referrers(); refs != nil {
 					for _, r := range *refs {
 						if ex, ok := r.(*ssa.Extract); ok && ex.Index == k {
-							if _, has := st.terms[ex]; !has {
+							if old, has := st.terms[ex]; !has || (fa.realias > 0 && old != feas[0].res[k].T) {
+								newAlias = !has
 								al := feas[0].res[k].T
 								for _, kind := range []string{aNN, aTR, aVALID, aCANIF} {
-									if v, ok := st.get(kind, rt); ok {
+									if v, ok := fa.knownTerm(st, kind, rt); ok {
 										fa.addTermFact(st, kind, al, v)
 									}
 								}
@@ -1406,7 +1715,7 @@ func (fa *FnAnalysis) refineCall(st *State, c *ssa.Call) {
 					// move existing facts about the opaque result onto the alias
 					al := feas[0].res[k].T
 					for _, kind := range []string{aNN, aTR, aVALID, aCANIF} {
-						if v, ok := st.get(kind, rt); ok {
+						if v, ok := fa.knownTerm(st, kind, rt); ok {
 							fa.addTermFact(st, kind, al, v)
 						}
 					}
@@ -1422,6 +1731,270 @@ func (fa *FnAnalysis) refineCall(st *State, c *ssa.Call) {
 				st.add(aNN, rt, false)
 			case 'N':
 				st.add(aNN, rt, true)
+			}
+		}
+	}
+}
+
+// appSubterms lists the APP subterms of t, innermost first.
+func appSubterms(t *Term) []*Term {
+	var out []*Term
+	seen := map[*Term]bool{}
+	var walk func(t *Term)
+	walk = func(t *Term) {
+		if t == nil || seen[t] {
+			return
+		}
+		seen[t] = true
+		walk(t.A)
+		walk(t.B)
+		if t.K == "APP" {
+			out = append(out, t)
+		}
+	}
+	walk(t)
+	return out
+}
+
+// refineApp evaluates a *virtual* call: the APP term of a pure in-package
+// function applied to argument terms, whether or not this function performs
+// such a call.  The callee's return cases are filtered by what the state
+// knows about the arguments and what all feasible cases agree on is recorded
+// for the result terms X(app,k).
+func (fa *FnAnalysis) refineApp(st *State, app *Term, depth int) {
+	e := fa.e
+	if depth > 3 || st.dead || app.K != "APP" {
+		return
+	}
+	callee := e.p.ByName[app.S]
+	if callee == nil || !e.p.inPkg(callee) {
+		return
+	}
+	sum := e.summary(callee)
+	if sum == nil || sum.Top || len(sum.Cases) == 0 {
+		return
+	}
+	var args []*Term
+	for l := app.A; l != nil; l = l.B {
+		args = append(args, l.A)
+	}
+	sig := callee.Signature.Results()
+	nres := sig.Len()
+	rts := make([]*Term, nres)
+	for k := 0; k < nres; k++ {
+		if nres == 1 {
+			rts[k] = app
+		} else {
+			rts[k] = e.tt.mk(Term{K: "X", A: app, N: k})
+		}
+	}
+	epoch := app.N
+	var cf [][]Fact
+	var cr [][]ResDesc
+	for _, rc := range sum.Cases {
+		ok := true
+		var fs []Fact
+		for _, f := range rc.Facts {
+			t := e.tt.substFull(f.T, args, rts, epoch)
+			if t == nil {
+				continue
+			}
+			if v, known := fa.knownTerm(st, f.Kind, t); known && v != f.Val {
+				ok = false
+				break
+			}
+			fs = append(fs, Fact{f.Kind, t, f.Val})
+		}
+		if !ok {
+			continue
+		}
+		var res []ResDesc
+		for k := 0; k < nres && k < len(rc.Res); k++ {
+			d := rc.Res[k]
+			if d.T != nil {
+				d.T = e.tt.substFull(d.T, args, rts, epoch)
+			}
+			switch d.Kind {
+			case 'c':
+				if v, known := fa.knownTerm(st, aTR, rts[k]); known && v != d.B {
+					ok = false
+				}
+			case 'n':
+				if v, known := fa.knownTerm(st, aNN, rts[k]); known && v {
+					ok = false
+				}
+			case 'N':
+				if v, known := fa.knownTerm(st, aNN, rts[k]); known && !v {
+					ok = false
+				}
+			}
+			if d.Valid != 0 {
+				if v, known := fa.knownTerm(st, aVALID, rts[k]); known && v != (d.Valid == 't') {
+					ok = false
+				}
+			}
+			res = append(res, d)
+		}
+		if !ok {
+			continue
+		}
+		cf = append(cf, fs)
+		cr = append(cr, res)
+	}
+	if len(cf) == 0 {
+		st.dead = true
+		return
+	}
+	fa.refineDepth++
+	fa.perCaseResults(st, nil, sig, rts, cf, cr)
+	fa.refineDepth--
+}
+
+// callsInTerm returns the in-package calls of this function (other than
+// `except`) whose result term occurs inside t.
+func (fa *FnAnalysis) callsInTerm(st *State, t *Term, except *ssa.Call) []*ssa.Call {
+	var out []*ssa.Call
+	for _, b := range fa.fn.Blocks {
+		for _, in := range b.Instrs {
+			c2, ok := in.(*ssa.Call)
+			if !ok || c2 == except {
+				continue
+			}
+			if _, has := st.cep[c2]; !has {
+				continue
+			}
+			ct := fa.term(st, c2)
+			if ct.K == "APP" && termContains(t, ct) {
+				out = append(out, c2)
+			}
+		}
+	}
+	return out
+}
+
+func termContains(t, sub *Term) bool {
+	if t == nil {
+		return false
+	}
+	if t == sub {
+		return true
+	}
+	return termContains(t.A, sub) || termContains(t.B, sub)
+}
+
+// perCaseResults evaluates, for every feasible return case, the properties of
+// each result under that case's own facts and equalities (result k == T_k),
+// and records what all cases agree on.
+func (fa *FnAnalysis) perCaseResults(st *State, c *ssa.Call, sig *types.Tuple, rts []*Term, caseFacts [][]Fact, caseRes [][]ResDesc) {
+	e := fa.e
+	nres := len(rts)
+	var tmps []*State
+	for i := range caseFacts {
+		tmp := st.clone()
+		for _, f := range caseFacts[i] {
+			fa.addTermFact(tmp, f.Kind, f.T, f.Val)
+		}
+		// equalities: facts known about the opaque result hold for the term it equals in this case
+		for k := 0; k < nres && k < len(caseRes[i]); k++ {
+			T := caseRes[i][k].T
+			if T == nil || T == rts[k] {
+				continue
+			}
+			for _, f := range st.factList() {
+				if nt := e.tt.replaceTerm(f.T, rts[k], T); nt != nil {
+					fa.addTermFact(tmp, f.Kind, nt, f.Val)
+				}
+			}
+		}
+		// let the calls this case's result terms are built from see the new facts
+		if fa.refineDepth < 2 {
+			fa.refineDepth++
+			for k := 0; k < nres && k < len(caseRes[i]); k++ {
+				if T := caseRes[i][k].T; T != nil {
+					if c != nil {
+						for _, c2 := range fa.callsInTerm(tmp, T, c) {
+							fa.refineCall(tmp, c2)
+						}
+					}
+					for _, sub := range appSubterms(T) {
+						fa.refineApp(tmp, sub, fa.refineDepth)
+					}
+				}
+			}
+			fa.refineDepth--
+		}
+		tmps = append(tmps, tmp)
+	}
+	live := 0
+	for _, t := range tmps {
+		if !t.dead {
+			live++
+		}
+	}
+	if live == 0 && len(tmps) > 0 {
+		st.dead = true
+		return
+	}
+	for k := 0; k < nres; k++ {
+		typ := sig.At(k).Type()
+		var props []string
+		if isNillable(typ) {
+			props = append(props, aNN)
+		}
+		if typeStr(typ) == "reflect.Value" {
+			props = append(props, aVALID, aCANIF)
+		}
+		for _, prop := range props {
+			if _, known := fa.knownTerm(st, prop, rts[k]); known {
+				continue
+			}
+			agree, first, val := true, true, false
+			for i := range caseFacts {
+				if tmps[i].dead {
+					continue
+				}
+				if k >= len(caseRes[i]) {
+					agree = false
+					break
+				}
+				d := caseRes[i][k]
+				v, known := false, false
+				if d.T != nil {
+					v, known = fa.knownTerm(tmps[i], prop, d.T)
+				}
+				if !known {
+					switch prop {
+					case aNN:
+						if d.Kind == 'N' {
+							v, known = true, true
+						} else if d.Kind == 'n' {
+							v, known = false, true
+						}
+					case aVALID:
+						if d.Valid == 't' {
+							v, known = true, true
+						} else if d.Valid == 'f' {
+							v, known = false, true
+						}
+					case aCANIF:
+						if d.Canif == 't' {
+							v, known = true, true
+						}
+					}
+				}
+				if !known {
+					agree = false
+					break
+				}
+				if first {
+					val, first = v, false
+				} else if v != val {
+					agree = false
+					break
+				}
+			}
+			if agree && !first {
+				st.add(prop, rts[k], val)
 			}
 		}
 	}
@@ -1555,6 +2128,12 @@ func (fa *FnAnalysis) assumeVal(st *State, v ssa.Value, pol bool) {
 					for _, el := range variadicElems(x.Call.Args[0]) {
 						if spec.kind == "valid" {
 							fa.addTermFact(st, aVALID, fa.term(st, el), true)
+						}
+						if strings.HasPrefix(spec.kind, "kindin:") {
+							// the element is a Kind value: record the membership on the Value it is the kind of
+							if kt := fa.term(st, el); kt.K == "KIND" {
+								st.add(spec.kind, kt.A, true)
+							}
 						}
 					}
 				}
